@@ -31,6 +31,8 @@ OPS = {
     "ins_ttl": {"op": "insert", "k": 1, "v": B2, "ttlv": 50, "wttl": True},
     "del_auto": {"op": "delete", "k": 1},
     "del_new": {"op": "delete", "k": 1, "auto": False, "tsv": NOW + 2},
+    "del_eq": {"op": "delete", "k": 1, "auto": False, "tsv": NOW - 10 * E9},      # equal to the initial generation's
+    "ins_eq": {"op": "insert", "k": 1, "v": B3, "auto": False, "tsv": NOW - 10 * E9},
     "get": {"op": "get", "k": 1},
     "cas": {"op": "cas", "k": 1, "x": B1, "v": B2},
     "cas_new": {"op": "cas", "k": 1, "x": B1, "v": B3, "auto": False, "tsv": NOW + 1},
